@@ -61,6 +61,7 @@ SHARDS = {'quick': 16, 'thorough': 16}
 BUDGET_S = {'quick': 150, 'thorough': 2400}
 
 TOL = 1e-9
+CPU_LIMIT_S = 120.0   # per pass run; the slowest legitimate case is ~5 s
 PARTITIONERS = [
     'QuickPartitioner', 'ScanPartitioner', 'ClusteringPartitioner',
     'GreedyPartitioner', 'GroupSingleQuditGatePass', 'QuickExtend',
@@ -300,7 +301,36 @@ def _drive(p, circuit, data) -> None:
         coro.send(None)
     except StopIteration:
         return
+    except core.HarnessError:
+        raise
+    except Exception as e:
+        e._c08_stage = type(p).__name__     # the pass that raised
+        raise
     raise core.HarnessError(f'{type(p).__name__} awaited the runtime')
+
+
+# input feature appended to a run| signature, per message: the trigger of the
+# finding known under that message, so that the same message raised without
+# the trigger (another root cause) gets a signature of its own
+_RUN_FEATURE = {
+    'unable-to-process-all': lambda f: 'ph2' if f['ph2'] else 'noph2',
+    'region-goes-off-circuit': lambda f: 'bs>n' if f['bs>n'] else 'bs<=n',
+}
+
+
+def _run_sig(name: str, e: BaseException, feat: dict) -> str:
+    """run|<pass that raised>|<exception type>|<innermost bqskit frame>, and
+    for the exceptions bqskit raises itself |<first words of the message>
+    (numbers dropped) and, where one is defined, |<input feature>."""
+    import re
+    stage = getattr(e, '_c08_stage', name)
+    sig = core.exc_sig(f'run|{stage}', e)
+    if type(e) in (ValueError, RuntimeError):
+        slug = '-'.join(re.findall(r'[a-z]+', str(e).lower())[:4])
+        sig += '|' + slug
+        if slug in _RUN_FEATURE:
+            sig += '|' + _RUN_FEATURE[slug](feat)
+    return sig
 
 
 def _pass_data(case, circuit):
@@ -328,27 +358,63 @@ def _pass_data(case, circuit):
     return data
 
 
-def _run_partitioner(case, circuit) -> None:
+def _stages(case) -> list:
+    """(stage name, pass, width limit of the blocks it may produce)."""
     import warnings
     import bqskit.passes as P
     name, bs = case['p'], case['bs']
-    data = _pass_data(case, circuit)
     with warnings.catch_warnings():
-        warnings.simplefilter('ignore')
+        warnings.simplefilter('ignore')     # GreedyPartitioner: deprecated
         if name == 'ClusteringPartitioner':
+            return [(name, P.ClusteringPartitioner(bs, case['pts']), bs)]
+        if name == 'GroupSingleQuditGatePass':
+            return [(name, P.GroupSingleQuditGatePass(), 1)]
+        if name == 'QuickExtend':
+            return [
+                ('QuickPartitioner', P.QuickPartitioner(bs), bs),
+                ('ExtendBlockSizePass', P.ExtendBlockSizePass(case['min']),
+                 max(bs, case['min'])),
+            ]
+        return [(name, getattr(P, name)(bs), bs)]
+
+
+class _Timeout(BaseException):
+    """CPU-time limit of one pass run exceeded (not an Exception, so that no
+    handler inside the code under test can swallow it)."""
+
+
+def _on_timer(signum, frame):
+    raise _Timeout()
+
+
+def _run_stage(case, p, circuit, data) -> None:
+    """Run one pass under a CPU-time limit (process virtual time, so machine
+    load cannot trip it); the limit is only armed in a main thread."""
+    import signal
+    import warnings
+    armed = False
+    try:
+        old = signal.signal(signal.SIGVTALRM, _on_timer)
+        signal.setitimer(signal.ITIMER_VIRTUAL, CPU_LIMIT_S)
+        armed = True
+    except ValueError:
+        pass
+    try:
+        with warnings.catch_warnings():
+            warnings.simplefilter('ignore')
+            if type(p).__name__ != 'ClusteringPartitioner':
+                return _drive(p, circuit, data)
+            # the pass draws its points from numpy's global generator
             state = np.random.get_state()
             np.random.seed(case['seed'] & 0x7FFFFFFF)
             try:
-                _drive(P.ClusteringPartitioner(bs, case['pts']), circuit, data)
+                _drive(p, circuit, data)
             finally:
                 np.random.set_state(state)
-        elif name == 'GroupSingleQuditGatePass':
-            _drive(P.GroupSingleQuditGatePass(), circuit, data)
-        elif name == 'QuickExtend':
-            _drive(P.QuickPartitioner(bs), circuit, data)
-            _drive(P.ExtendBlockSizePass(case['min']), circuit, data)
-        else:
-            _drive(getattr(P, name)(bs), circuit, data)
+    finally:
+        if armed:
+            signal.setitimer(signal.ITIMER_VIRTUAL, 0)
+            signal.signal(signal.SIGVTALRM, old)
 
 
 def _features(case, ops, flat) -> dict:
@@ -359,54 +425,23 @@ def _features(case, ops, flat) -> dict:
         'ph': any(k[3] for k in flat),
         'blk': any(o.sub is not None for o in ops),
         'bs>n': case['bs'] > n,
+        # a barrier/measurement on >= 2 qudits
+        'ph2': any(k[3] and len(k[1]) >= 2 for k in flat),
+        # GreedyPartitioner: no two maximal regions can overlap
+        'narrow': case['bs'] == 2 and all(len(o.loc) >= 2 for o in ops),
     }
 
 
-def check(case) -> Outcome:
-    out = Outcome()
-    out.excluded = int(case.get('x', 0))
-    name, bs = case['p'], case['bs']
-    radixes = _radixes(case)
+def _judge(name, limit, case, circuit, radixes, ops, ref, feat, out) -> dict:
+    """Compare the circuit left by pass ``name`` with the reference program
+    ``ref``; violations go to ``out`` under signatures carrying ``name``."""
     n = len(radixes)
-    ops = _case_ops(case)
-    ref = _flat_ref(ops)
-    circuit = _build(radixes, ops)
-    feat = _features(case, ops, ref)
-    out.label('p:' + name)
-
-    # ---- run the code under test
-    if case.get('expect') == 'reject':
-        out.label('wide-gate-rejection')
-        try:
-            _run_partitioner(case, circuit)
-        except REJECT_TYPE[name]:
-            out.nontrivial = True
-            return out
-        except core.HarnessError:
-            raise
-        except Exception as e:
-            out.fail(core.exc_sig(f'reject_type|{name}', e), repr(e))
-            return out
-        # no rejection (the random points of Clustering may miss the wide
-        # gate): then the result must be a correct partition
-        out.label('wide-gate-not-rejected')
-    else:
-        try:
-            _run_partitioner(case, circuit)
-        except core.HarnessError:
-            raise
-        except Exception as e:
-            f = 'bs>n' if feat['bs>n'] else 'bs<=n'
-            out.fail(
-                core.exc_sig(f'run|{name}|{f}', e),
-                f'{e!r} n={n} bs={bs} ops={len(ops)}',
-            )
-            return out
-
-    # ---- read the output through the grid
+    bs = case['bs']
+    info = {'ok': False, 'blocks': []}
     if tuple(circuit.radixes) != tuple(radixes):
         out.fail(f'radixes|{name}', f'{circuit.radixes} != {radixes}')
-        return out
+        return info
+    nv = len(out.violations)
     got: list = []
     _walk(circuit, None, 0, 0, got)
     top = [op for _, op in refsim.grid_ops(circuit)]
@@ -441,7 +476,12 @@ def check(case) -> Outcome:
         else:
             h, gs = missing[0]
             d = f'output lacks {_s((gs[0], h[1], h[2]))}'
-        out.fail(f'multiset|{name}', f'{d}; {len(ref)} ops in, {len(got)} out')
+        f = ''
+        if name == 'GreedyPartitioner':
+            f = '|narrow' if feat['narrow'] else '|general'
+        out.fail(
+            f'multiset|{name}{f}', f'{d}; {len(ref)} ops in, {len(got)} out',
+        )
 
     # (3) per-qudit projections
     pr, pg = _projections(ref, n), _projections(got, n)
@@ -449,6 +489,7 @@ def check(case) -> Outcome:
     for q in range(n):
         a, b = pr[q], pg[q]
         bad = None
+        phb = False
         for i, (x, y) in enumerate(zip(a, b)):
             if not _same(ref[x], got[y]):
                 bad = f'position {i}: {_s(ref[x])} became {_s(got[y])}'
@@ -456,7 +497,7 @@ def check(case) -> Outcome:
                 break
         else:
             if len(a) != len(b):
-                bad, phb = f'lengths {len(a)} vs {len(b)}', False
+                bad = f'lengths {len(a)} vs {len(b)}'
         if bad is not None:
             order_ok = False
             if ms_ok:
@@ -478,39 +519,98 @@ def check(case) -> Outcome:
                 out.fail(f'unitary|{name}', f'max abs diff {d:.3e}')
         elif not order_ok:
             out.label('reorder-of-commuting-ops')
-        out.label('numeric-checked')
+        info['numeric'] = True
 
     # (1) block widths
-    in_blocks = {}
+    in_blocks: dict = {}
     for o in ops:
         if o.sub is not None:
-            in_blocks.setdefault(tuple(sorted(o.loc)), []).append(o)
-    limit = 1 if name == 'GroupSingleQuditGatePass' else bs
-    if name == 'QuickExtend':
-        limit = max(limit, case['min'])
-    blocks = []     # (op, number of direct children)
+            in_blocks.setdefault(tuple(sorted(o.loc)), set()).add(len(o.sub))
+    blocks = info['blocks']     # number of direct children per block
     for op in top:
         if not _is_cg(op.gate):
             continue
         kids = [o for _, o in refsim.grid_ops(op.gate._circuit)]
-        blocks.append((op, len(kids)))
+        blocks.append(len(kids))
         widest = max([o.num_qudits for o in kids] + [0])
         w = op.num_qudits
         if w <= max(limit, widest):
             continue
         # an input block wider than the limit that was left as it is
-        if tuple(sorted(op.location)) in in_blocks:
+        if len(kids) in in_blocks.get(tuple(sorted(op.location)), ()):
             continue
         out.fail(
             f'width|{name}',
             f'block on {tuple(op.location)} spans {w} > max(limit {limit}, '
             f'widest member {widest})',
         )
-    if len(got) and not top:
+    if ref and not top:
         out.fail(f'multiset|{name}', 'empty output')
+    info['ok'] = len(out.violations) == nv
+    if order_ok and ms_ok and len(blocks) >= 3:
+        info['interleaved'] = _interleaved3(ref, got, pr, pg, n)
+    return info
+
+
+def check(case) -> Outcome:
+    out = Outcome()
+    out.excluded = int(case.get('x', 0))
+    name, bs = case['p'], case['bs']
+    radixes = _radixes(case)
+    n = len(radixes)
+    ops = _case_ops(case)
+    ref = _flat_ref(ops)
+    circuit = _build(radixes, ops)
+    feat = _features(case, ops, ref)
+    out.label('p:' + name)
+    reject = case.get('expect') == 'reject'
+    if reject:
+        out.label('wide-gate-rejection')
+
+    data = _pass_data(case, circuit)
+    info: dict = {}
+    for stage, p, limit in _stages(case):
+        # ---- run the code under test (it rewrites ``circuit`` in place)
+        try:
+            _run_stage(case, p, circuit, data)
+        except core.HarnessError:
+            raise
+        except _Timeout:
+            out.fail(
+                f'timeout|{stage}',
+                f'no result after {CPU_LIMIT_S:.0f} s of CPU time; n={n} '
+                f'bs={bs} ops={len(ops)}',
+            )
+            return out
+        except Exception as e:
+            if reject and isinstance(e, REJECT_TYPE[name]):
+                out.nontrivial = True       # the documented rejection
+            elif reject:
+                out.fail(
+                    core.exc_sig(f'reject_type|{name}', e), repr(e)[:300],
+                )
+            else:
+                out.fail(
+                    _run_sig(name, e, feat),
+                    f'{e!r} n={n} bs={bs} ops={len(ops)}',
+                )
+            return out
+        if reject:
+            # no rejection (the random points of Clustering may miss the
+            # wide gate): then the result must be a correct partition
+            out.label('wide-gate-not-rejected')
+        # ---- judge what the pass left, read through the grid
+        info = _judge(stage, limit, case, circuit, radixes, ops, ref, feat, out)
+        if not info['ok']:
+            break
 
     # ---- non-triviality and labels
-    out.nontrivial = len(blocks) >= 3 and any(k >= 2 for _, k in blocks)
+    blocks = info['blocks']
+    out.nontrivial = len(blocks) >= 3 and any(k >= 2 for k in blocks)
+    if info.get('numeric'):
+        out.label('numeric-checked')
+    if info.get('interleaved'):
+        out.label('interleaved>=3')
     if feat['ph']:
         out.label('placeholder')
         if any(type(k[0]).__name__ == 'BarrierPlaceholder' for k in ref):
@@ -530,9 +630,6 @@ def check(case) -> Outcome:
         'ops<=20' if len(ref) <= 20 else 'ops21-100' if len(ref) <= 100
         else 'ops>100',
     )
-    if order_ok and ms_ok and len(blocks) >= 3:
-        if _interleaved3(ref, got, pr, pg, n):
-            out.label('interleaved>=3')
     return out
 
 
@@ -593,7 +690,14 @@ _PARAMS = st.one_of(
 )
 
 # signatures of the findings confirmed on the unchanged tree (see DEDICATED)
-SIG_DUP = 'multiset|GreedyPartitioner'
+SIG_DUP = 'multiset|GreedyPartitioner|general'
+SIG_OFF = (
+    'run|{}|ValueError|circuit.py:check_region|region-goes-off-circuit|bs>n'
+)
+SIG_PENDING = (
+    'run|QuickPartitioner|RuntimeError|quick.py:run|unable-to-process-all|ph2'
+)
+SIG_PH = 'placeholder_in_block|{}'
 
 
 def _avoid(ctx, name: str) -> dict:
@@ -605,11 +709,12 @@ def _avoid(ctx, name: str) -> dict:
         # the arm is then confined to block size 2 without single-qudit ops
         'dup': name == 'GreedyPartitioner' and ctx.is_known(SIG_DUP),
         '3q': ctx.is_known(f'order|{name}|has3q'),
-        'ph': ctx.is_known(f'placeholder_in_block|{name}'),
-        'bs>n': any(
-            k.rstrip('*').startswith(f'run|{name}|bs>n')
-            for k in ctx.known_sigs
-        ),
+        'ph': ctx.is_known(SIG_PH.format(name)),
+        # a barrier/measurement spanning >= 2 qudits is needed to tie a
+        # closed bin to a later operation of another bin
+        'ph2': name in ('QuickPartitioner', 'QuickExtend')
+        and ctx.is_known(SIG_PENDING),
+        'bs>n': ctx.is_known(SIG_OFF.format(name)),
     }
 
 
@@ -808,6 +913,9 @@ def cases(draw, ctx=None, name=None, mode='drawn'):
     if avoid.get('ph'):
         lim['pw'] = 0
         x += 1
+    if avoid.get('ph2'):
+        lim['pw'] = min(lim['pw'], 1)
+        x += 1
     if avoid.get('dup'):
         lim['pw'] = 0
         lim['q1'] = False
@@ -816,7 +924,7 @@ def cases(draw, ctx=None, name=None, mode='drawn'):
     if mode == 'rich':
         spec = draw(S.circuit_specs(
             radixes=radixes, max_ops=14, min_ops=1,
-            max_k=min(3, lim['gw']), placeholders=lim['pw'] > 0,
+            max_k=min(3, lim['gw']), placeholders=lim['pw'] > 1,
             nested_depth=1 if lim['bw'] >= 3 else 0,
         ))
         case['spec'] = spec
@@ -887,15 +995,59 @@ def reject_cases(draw):
     return case
 
 
-# Minimal reproducers of findings confirmed on the unchanged tree; run once
-# per shard so that they are reported whether or not the random arms are
-# steered away from their triggers.
-DEDICATED: list = []
+# Minimal reproducers of the findings confirmed on the unchanged tree, with
+# the signature each one produces.  They run first in every shard, so the
+# findings are reported whether or not the random arms are steered away from
+# their triggers (and the shrink pass is not spent on them).
+def _ded(p, bs, n, ops, **kw) -> dict:
+    return dict({'p': p, 'bs': bs, 'n': n, 'radix': 2, 'ops': ops,
+                 'seed': 0}, **kw)
+
+
+_BAR = [['cx', [0, 1]], ['bar', [0, 1]], ['cx', [1, 2]]]
+_M2 = {'edges': [[0, 1], [1, 2]], 'remote': [[1, 2]]}
+DEDICATED: list = [
+    # Circuit.surround ignores its bounding_region argument, so the regions
+    # GreedyPartitioner recomputes overlap the ones already chosen: H is
+    # emitted in two blocks
+    (SIG_DUP, _ded(
+        'GreedyPartitioner', 2, 3,
+        [['cx', [0, 1]], ['h', [0]], ['cx', [0, 2]]],
+    )),
+    # block size > width folds {q: (0, num_cycles)}: one cycle too many
+    (SIG_OFF.format('GreedyPartitioner'), _ded(
+        'GreedyPartitioner', 3, 2, [['h', [0]]],
+    )),
+    (SIG_OFF.format('ClusteringPartitioner'), _ded(
+        'ClusteringPartitioner', 3, 2, [['h', [0]]], pts=1,
+    )),
+    # the bin {cx(0,1), cx(4,0)} straddles the barrier through the closed
+    # qudit 1: blocked qudits are not propagated at a barrier
+    (SIG_PENDING, _ded(
+        'QuickPartitioner', 3, 5,
+        [['cx', [0, 1]], ['ccx', [1, 2, 3]], ['bar', [1, 4]],
+         ['cx', [4, 0]]],
+    )),
+    # these partitioners treat a barrier/measurement/reset as a gate
+    (SIG_PH.format('ScanPartitioner'), _ded('ScanPartitioner', 2, 3, _BAR)),
+    (SIG_PH.format('ClusteringPartitioner'), _ded(
+        'ClusteringPartitioner', 2, 3, _BAR, pts=4,
+    )),
+    (SIG_PH.format('GreedyPartitioner'), _ded(
+        'GreedyPartitioner', 2, 3, _BAR,
+    )),
+    (SIG_PH.format('GTQCPartitioner'), _ded(
+        'GTQCPartitioner', 2, 3, _BAR, model=_M2,
+    )),
+    (SIG_PH.format('TDAGPartitioner'), _ded(
+        'TDAGPartitioner', 2, 3, _BAR, model=_M2,
+    )),
+]
 
 
 def run_shard(ctx: core.Ctx) -> core.ShardResult:
     res = core.ShardResult()
-    for case in DEDICATED:
+    for _, case in DEDICATED:
         res.record(case, check(case))
     plan = [
         (cases(ctx), 230, 4500),
